@@ -164,10 +164,14 @@ pub struct Cur<'a> {
     /// (message start, end of checksummed bytes, offset of the checksum TLF)
     pub crc_sites: Vec<(usize, usize, usize)>,
     pub tlf_sites: Vec<TlfSite>,
+    /// progress markers: one per message head read (transaction id, group, abort, announced
+    /// number of values for a list response), and the number of list values read
+    pub starts: Vec<(Vec<u8>, u8, u8, Option<u64>)>,
+    pub n_entries: usize,
 }
 impl<'a> Cur<'a> {
     pub fn new(b: &'a [u8]) -> Self {
-        Cur { b, i: 0, check_crc: true, crc_sites: vec![], tlf_sites: vec![] }
+        Cur { b, i: 0, check_crc: true, crc_sites: vec![], tlf_sites: vec![], starts: vec![], n_entries: 0 }
     }
     fn byte(&mut self) -> R<u8> {
         let x = *self.b.get(self.i).ok_or(RErr::Eof)?;
@@ -344,18 +348,22 @@ impl<'a> Cur<'a> {
         let body = match tag {
             0x0101 => {
                 self.list(6)?;
-                RBody::Open {
+                let b = RBody::Open {
                     codepage: self.opt_octet()?,
                     client_id: self.opt_octet()?,
                     req_file_id: self.octet()?,
                     server_id: self.octet()?,
                     ref_time: self.opt_time()?,
                     sml_version: if self.is_absent() { None } else { Some(self.uint(1)? as u8) },
-                }
+                };
+                self.starts.push((tid.clone(), group, abort, None));
+                b
             }
             0x0201 => {
                 self.list(1)?;
-                RBody::Close { sig: self.opt_octet()? }
+                let b = RBody::Close { sig: self.opt_octet()? };
+                self.starts.push((tid.clone(), group, abort, None));
+                b
             }
             0x0701 => {
                 self.list(7)?;
@@ -367,9 +375,11 @@ impl<'a> Cur<'a> {
                 if ty != Ty::List {
                     return Err(RErr::Mismatch);
                 }
+                self.starts.push((tid.clone(), group, abort, Some(n)));
                 let mut vals = Vec::new();
                 for _ in 0..n {
                     vals.push(self.entry()?);
+                    self.n_entries += 1;
                 }
                 RBody::GetList { client_id, server_id, list_name, act_sensor_time, vals, list_sig: self.opt_octet()?, act_gateway_time: self.opt_time()? }
             }
@@ -396,6 +406,20 @@ pub fn read_file(b: &[u8]) -> R<RFile> {
         v.push(c.message()?);
     }
     Ok(v)
+}
+pub struct RefProgress {
+    pub starts: Vec<(Vec<u8>, u8, u8, Option<u64>)>,
+    pub n_entries: usize,
+}
+/// How far the independent reading gets: message heads and list values read before its end / first error.
+pub fn ref_progress(b: &[u8]) -> RefProgress {
+    let mut c = Cur::new(b);
+    while c.i < b.len() {
+        if c.message().is_err() {
+            break;
+        }
+    }
+    RefProgress { starts: c.starts, n_entries: c.n_entries }
 }
 /// Rewrites every message checksum the reader can locate (structure must parse with
 /// checksums ignored, and each checksum field must be the 2-byte form). `None` if not.
@@ -719,6 +743,9 @@ pub fn from_complete(f: &complete::File) -> RFile {
 
 /// What iterating the streaming parser produced.
 pub struct StreamRun {
+    /// message heads handed out: (transaction id, group, abort, announced number of values)
+    pub starts: Vec<(Vec<u8>, u8, u8, Option<u64>)>,
+    pub n_entries: usize,
     /// allocator activity while inside `Parser::new` / `next` only
     pub alloc: crate::alloc::AllocStats,
     /// messages re-assembled from the events up to the first error / end
@@ -733,7 +760,7 @@ pub struct StreamRun {
 pub fn run_streaming(x: &[u8]) -> StreamRun {
     crate::alloc::reset();
     let mut p = crate::alloc::accumulate(|| streaming::Parser::new(x));
-    let mut r = StreamRun { alloc: Default::default(), msgs: vec![], err: None, items: 0, notes: vec![] };
+    let mut r = StreamRun { starts: vec![], n_entries: 0, alloc: Default::default(), msgs: vec![], err: None, items: 0, notes: vec![] };
     let mut open_list: Option<(u32, u32)> = None;
     loop {
         if r.items > x.len() + 1 {
@@ -777,11 +804,17 @@ pub fn run_streaming(x: &[u8]) -> StreamRun {
                                 }
                             }
                         };
+                        let announced = match &m.message_body {
+                            streaming::MessageBody::GetListResponse(g) => Some(g.num_vals as u64),
+                            _ => None,
+                        };
+                        r.starts.push((m.transaction_id.to_vec(), m.group_no, m.abort_on_error, announced));
                         r.msgs.push(RMsg { tid: m.transaction_id.to_vec(), group: m.group_no, abort: m.abort_on_error, body });
                     }
                     streaming::ParseEvent::ListEntry(e) => match (&mut open_list, r.msgs.last_mut()) {
                         (Some((n, k)), Some(RMsg { body: RBody::GetList { vals, .. }, .. })) => {
                             *k += 1;
+                            r.n_entries += 1;
                             if *k > *n {
                                 r.notes.push(("C09 more value events than announced", format!("announced {}", n)));
                             }
